@@ -29,12 +29,15 @@ WRefusedThenOk == AssocOpenDone /\ everRefused
 WSendErr == SendErr
 WCancelledThenFresh == AssocOpenStart /\ Len(done) > 0 /\ done[Len(done)].out = "cancelled"
 WReplyWhileParked == Parked /\ SParked # {} /\ ReadReply(CHOOSE k \in SParked : TRUE)
+WEmptyReplyDelivered == SParked # {} /\ Head(rxq[CHOOSE k \in SParked : TRUE]).len = 0 /\ ReadReply(CHOOSE k \in SParked : TRUE)
+WEmptyAnswerCompletesDns == rpc = "regin" /\ rcur.len = 0 /\ Rev(rcur.lab) \in DOMAIN pipeTab /\ pipeTab[Rev(rcur.lab)].pend = 1 /\ RegisterIncoming
+WEmptyDatagramSent == SendOk /\ lcur.len = 0
 WReplyAfterFlowEnded == rpc = "regin" /\ Rev(rcur.lab) \notin DOMAIN pipeTab /\ RegisterIncoming
 
 Witnesses == WAddPeer \/ WExpireLeavesSiblings \/ WExpireLeavesOneSibling \/ WExpireLastReleases \/ WDnsLeavesSiblings
              \/ WDnsLeavesOneSibling \/ WDnsLastReleases \/ WSiblingUsedAfterClose \/ WTwoAssociations
              \/ WErrorClosesSeveral \/ WErrorOtherSourceLives \/ WRefusedThenOk \/ WSendErr \/ WReplyAfterFlowEnded
-             \/ WCancelledThenFresh \/ WReplyWhileParked
+             \/ WCancelledThenFresh \/ WReplyWhileParked \/ WEmptyReplyDelivered \/ WEmptyAnswerCompletesDns \/ WEmptyDatagramSent
 
 MCNext == Next \/ Witnesses
 MCSpec == Init /\ [][MCNext]_vars
